@@ -229,7 +229,7 @@ func c06Eval(e *Env, cfg Cfg, img []byte, sizes []int, allowedA, allowedB []int,
 		}
 		e.Yield("opened")
 		var dg pq.Delegate
-		dg, err = pq.NewStandaloneDelegate(f)
+		dg, err = newQueueDelegate(f, cfg)
 		if err != nil {
 			return
 		}
